@@ -67,6 +67,17 @@ func evalAPI(c *apigen.Case, st *apigen.Stats) *harness.Fail {
 	if len(c.Hist) == 0 || len(c.Hist) > 8 {
 		return badCase("history of %d operations", len(c.Hist))
 	}
+	if what, ue, fe, us, fs, uerr, ferr, ok := apigen.ReuseAfterUse(c); ok {
+		st.Class("box-used-then-public-fields-replaced")
+		switch {
+		case (uerr == nil) != (ferr == nil):
+			return harness.Failf("C02|"+what+"|a box that was used before encodes differently after the same change of its public fields", "used object: %v, unused object: %v", uerr, ferr)
+		case us != fs:
+			return harness.Failf("C02|"+what+"|Size() of a box that was used before differs after the same change of its public fields", "used object %d, unused object %d (encoded: %d / %d bytes)", us, fs, len(ue), len(fe))
+		case uerr == nil && !bytes.Equal(ue, fe):
+			return harness.Failf("C02|"+what+"|a box that was used before encodes differently after the same change of its public fields", "used object %x, unused object %x", ue, fe)
+		}
+	}
 	t, err := apigen.Build(c, st)
 	if err != nil {
 		var rj apigen.RejectedError
